@@ -353,7 +353,30 @@ def check_c02(res, tier, replay):
 def check_c04(res, tier, replay):
     rng = random.Random(vlib.seed() + 4)
     vlib.apply_obligations(res, 'C04')
-    base = replay_cases(replay) if replay else gen_cases(rng, tier, per=(6 if tier == 'quick' else 40))
+    base = replay_cases(replay) if replay else gen_cases(rng, tier, per=(12 if tier == 'quick' else 60))
+    stats = {'evaluations': 0, 'checked': 0, 'mism': 0, 'bad': 0, 'cells': set(), 'samples': []}
+    c04_pass(res, rng, tier, base, stats)
+    if LAST_MISMATCH_COMPONENTS and not replay:
+        # the model no longer describes these components: widen the search for a failing input on the real code
+        names = sorted(LAST_MISMATCH_COMPONENTS)
+        stats['focused_search'] = names
+        c04_pass(res, rng, tier, gen_cases(rng, tier, names=names, per=80), stats, report_corr=False)
+    res.samples = stats['samples']
+    res.coverage.update({
+        'evaluations': stats['evaluations'], 'distinct_nontrivial': len(stats['cells']),
+        'rule': 'indicator x configuration x {prefix run, suffix rewrite} x cut position class; each derived run is compared '
+                'bit-for-bit with the run on the whole series (no reference implementation involved): the run on the first m '
+                'inputs must be exactly the outputs for positions < m (declared idle period gives the position of each output)',
+        'relations_checked': stats['checked'], 'traces_validated_against_impl': stats['evaluations'] - stats['mism'],
+        'go_vs_model_mismatches': stats['mism'], 'violations_found': stats['bad'],
+        'focused_search_components': stats.get('focused_search', []),
+        'trusted_base': vlib.TRUSTED,
+    })
+    res.assumptions = ['indicators only here; strategies are covered by C05/C07 checks using the same relation']
+    return res.finish()
+
+
+def c04_pass(res, rng, tier, base, stats, report_corr=True):
     # Go-vs-Go: prefixes and suffix rewrites of the same series
     derived = []   # (kind, base index, cut m, case)
     for bi, c in enumerate(base):
@@ -376,9 +399,12 @@ def check_c04(res, tier, replay):
             derived.append(('suffix', bi, mcut, (c[0], c[1], c[2], mixed, c[4])))
     allcases = base + [d[3] for d in derived]
     lines, go, model = run_both(allcases)
-    mism = correspondence(res, allcases, lines, go, model, 'C04')
+    if report_corr:
+        mism = correspondence(res, allcases, lines, go, model, 'C04')
+    else:
+        mism = 0
     bad = 0
-    cells = set()
+    cells = stats['cells']
     checked = 0
     for di, (kind, bi, mcut, c) in enumerate(derived):
         gfull = parse_ind(go.get(lines[bi].split(' ')[0], 'missing'))
@@ -388,20 +414,28 @@ def check_c04(res, tier, replay):
         name = c[0]
         n = len(base[bi][3][0])
         problem = None
+        gi = int(gfull['meta'].get('idle', -1))
+        w = gi if gi >= 0 else idle_of(name, c[1])       # declared warm-up: output k is the value for position k + w
+        known_len = name in load_findings('C02')           # outputs with a recorded length finding are compared on the common part only
         for k, (of, od) in enumerate(zip(gfull['outs'], gder['outs'])):
+            want = min(len(of), max(0, mcut - w))           # outputs that refer to positions < mcut
+            if known_len and k == load_findings('C02')[name].get('output', -1):
+                want = min(want, len(od))
             if kind == 'prefix':
-                # outputs of the prefix run must be a prefix of the full run (exact, Go vs Go)
-                if od != of[:len(od)]:
-                    j = next(j for j in range(len(od)) if j >= len(of) or od[j] != of[j])
-                    problem = {'output': k, 'index': j, 'cut': mcut, 'prefix_run': h2f(od[j]),
+                # the run on the first mcut inputs must be exactly the outputs for positions < mcut (Go vs Go, exact)
+                if len(od) < want or od[:want] != of[:want]:
+                    j = next((j for j in range(min(want, len(od))) if od[j] != of[j]), min(want, len(od)))
+                    problem = {'output': k, 'index': j, 'cut': mcut, 'declared_idle': w,
+                               'prefix_run_outputs': len(od), 'outputs_for_positions_before_cut': want,
+                               'prefix_run': h2f(od[j]) if j < len(od) else None,
                                'full_run': h2f(of[j]) if j < len(of) else None}
                     break
             else:
-                # outputs for positions < mcut are unchanged: the number of such outputs is what the prefix run emits
-                keep = max(0, len(of) - (n - mcut))
-                if od[:keep] != of[:keep]:
-                    j = next(j for j in range(keep) if od[j] != of[j])
-                    problem = {'output': k, 'index': j, 'cut': mcut, 'after_suffix_rewrite': h2f(od[j]), 'before': h2f(of[j])}
+                # rewriting the inputs from position mcut on must leave the outputs for positions < mcut unchanged
+                if od[:want] != of[:want]:
+                    j = next((j for j in range(want) if j >= len(od) or od[j] != of[j]), 0)
+                    problem = {'output': k, 'index': j, 'cut': mcut, 'declared_idle': w,
+                               'after_suffix_rewrite': h2f(od[j]) if j < len(od) else None, 'before': h2f(of[j])}
                     break
         checked += 1
         cells.add((name, tuple(c[1]), kind, 'cut<=w' if mcut <= idle_of(name, c[1]) else 'cut>w'))
@@ -410,17 +444,11 @@ def check_c04(res, tier, replay):
             res.violation({'case': case_json(base[bi]), 'derived_case': case_json(c), 'kind': kind,
                            'first_difference': problem,
                            'oracle': 'run on a prefix = prefix of the run; later inputs never change earlier outputs (Go vs Go, bit-exact)'})
-    res.samples = [{'kind': d[0], 'cut': d[2], 'name': d[3][0], 'ns': d[3][1], 'n': len(base[d[1]][3][0])} for d in derived[:3]]
-    res.coverage.update({
-        'evaluations': len(allcases), 'distinct_nontrivial': len(cells),
-        'rule': 'indicator x configuration x {prefix run, suffix rewrite} x cut position class; each derived run is compared '
-                'bit-for-bit with the run on the whole series (no reference implementation involved)',
-        'relations_checked': checked, 'traces_validated_against_impl': len(allcases) - mism,
-        'go_vs_model_mismatches': mism, 'violations_found': bad,
-        'trusted_base': vlib.TRUSTED,
-    })
-    res.assumptions = ['indicators only here; strategies are covered by C05/C07 checks using the same relation']
-    return res.finish()
+    stats['evaluations'] += len(allcases)
+    stats['checked'] += checked
+    stats['mism'] += mism
+    stats['bad'] += bad
+    stats['samples'] += [{'kind': d[0], 'cut': d[2], 'name': d[3][0], 'ns': d[3][1], 'n': len(base[d[1]][3][0])} for d in derived[:3]]
 
 
 # =====================================================================================  C15
@@ -441,95 +469,131 @@ def leq(a, b, scale):
     return a <= b + 1e-9 * max(abs(a), abs(b), scale * 1e-3)
 
 
+# indicators whose defining formula has a data-dependent denominator: a non-finite value there is exempt.
+# For all the others (std, ATR, bands, moving min/max, Aroon …) a NaN/Inf IS a violation: nothing divides by data.
+NAN_OK = {'Rsi', 'Mfi', 'StochasticOscillator', 'WilliamsR', 'StochasticRsi', 'Mfm', 'Cmf', 'Bop', 'BollingerBandWidth',
+          'UlcerIndex'}
+
+
+def c15_cases(rng, tier, names, per):
+    cases = []
+    for name in names:
+        for j in range(per):
+            kinds, cfg, (dns, dfs) = CAT[name]
+            ns, fs = (list(dns), list(dfs)) if j == 0 else cfg(rng, 12 if tier == 'quick' else 40)
+            ns, fs = list(ns), list(fs)
+            w = idle_of(name, ns)
+            n = rng.choice([w + 1, w + 2, 2 * w + 2, rng.randrange(w, w + 80)])
+            regime = REGIMES[j % len(REGIMES)]
+            ins, regime, ohlcv = make_inputs(rng, name, n, regime)
+            if name in ('MovingMax', 'MovingMin', 'MovingStd') and j % 3 == 1:
+                # the volume column of a valid OHLCV series: non-negative, with non-traded bars (zeros)
+                from catalog import gen_ohlcv
+                sv, regime = gen_ohlcv(rng, n, regime if regime in REGIMES else None)
+                vol = [0.0 if rng.random() < 0.15 else v for v in sv['v']]
+                ins, regime = [vol], regime + '+volume'
+            cases.append((name, ns, fs, ins, regime))
+    return cases
+
+
+def c15_eval(res, cases, lines, go, findings, stats):
+    for i, c in enumerate(cases):
+        cid = lines[i].split(' ')[0]
+        g = parse_ind(go.get(cid, 'missing'))
+        name = c[0]
+        if g['status'] != 'ok':
+            stats['not_ok'] += 1
+            continue
+        scale = max([1.0] + [abs(v) for s in c[3] for v in s])
+        outs = [[h2f(v) for v in s] for s in g['outs']]
+        problem = None
+        nan_ok = name in NAN_OK
+
+        def undefined(v):
+            return v != v or abs(v) == math.inf
+
+        for (k, lo, hi) in RANGE.get(name, []):
+            for j, v in enumerate(outs[k]):
+                if undefined(v):
+                    if nan_ok:
+                        stats['exempt'] += 1
+                    elif problem is None:
+                        problem = {'output': k, 'index': j, 'value': repr(v), 'note': 'non-finite value although the formula divides by no data'}
+                    continue
+                stats['checked'] += 1
+                r1 = leq(lo, v, 1.0) if lo is not None else True
+                r2 = leq(v, hi, 1.0) if hi is not None else True
+                if not (r1 and r2) and problem is None:
+                    problem = {'output': k, 'index': j, 'value': v, 'range': [lo, hi]}
+        if name in BANDS:
+            u, mdl, l = BANDS[name]
+            for j in range(min(len(outs[u]), len(outs[mdl]), len(outs[l]))):
+                vals = (outs[u][j], outs[mdl][j], outs[l][j])
+                if any(undefined(v) for v in vals):
+                    if problem is None:
+                        problem = {'index': j, 'upper': repr(vals[0]), 'middle': repr(vals[1]), 'lower': repr(vals[2]),
+                                   'note': 'non-finite band value'}
+                    continue
+                stats['checked'] += 1
+                if not (leq(vals[1], vals[0], scale) and leq(vals[2], vals[1], scale)) and problem is None:
+                    problem = {'index': j, 'upper': vals[0], 'middle': vals[1], 'lower': vals[2]}
+        if name in ('MovingMax', 'MovingMin'):
+            p = c[1][0]
+            for j, v in enumerate(outs[0]):
+                if j + p - 1 >= len(c[3][0]):
+                    continue
+                x = c[3][0][j + p - 1]
+                win = c[3][0][j:j + p]
+                ok = (not undefined(v)) and (leq(x, v, scale) if name == 'MovingMax' else leq(v, x, scale)) and (v in win)
+                stats['checked'] += 1
+                if not ok and problem is None:
+                    problem = {'index': j, 'extreme': v, 'value': x, 'window': win}
+        n = len(c[3][0]) if c[3] else 0
+        stats['cells'].add((name, tuple(c[1]), c[4], min(n // 10, 10)))
+        if problem:
+            f = findings.get(name)
+            cond = (f or {}).get('condition', {})
+            if f and ('ns0' not in cond or (c[1] and c[1][0] == cond['ns0'])):
+                stats['known'][name] += 1
+                continue
+            stats['bad'] += 1
+            res.violation({'case': case_json(c), 'first_difference': problem,
+                           'oracle': 'documented range / band ordering evaluated directly on the Go output'})
+
+
 def check_c15(res, tier, replay):
     rng = random.Random(vlib.seed() + 15)
     vlib.apply_obligations(res, 'C15')
     findings = load_findings('C15')
     names = list(RANGE) + list(BANDS) + ['MovingMax', 'MovingMin']
     per = 24 if tier == 'quick' else 200
-    if replay:
-        cases = replay_cases(replay)
-    else:
-        cases = [w for w, _ in witness_cases('C15')]
-        for name in names:
-            for j in range(per):
-                kinds, cfg, (dns, dfs) = CAT[name]
-                ns, fs = (list(dns), list(dfs)) if j == 0 else cfg(rng, 12 if tier == 'quick' else 40)
-                ns, fs = list(ns), list(fs)
-                w = idle_of(name, ns)
-                n = rng.choice([w + 1, w + 2, 2 * w + 2, rng.randrange(w, w + 80)])
-                # valid OHLCV only (positive prices): plain-numeric indicators get a price series here
-                regime = REGIMES[j % len(REGIMES)]
-                ins, regime, _ = make_inputs(rng, name, n, regime)
-                cases.append((name, ns, fs, ins, regime))
+    cases = replay_cases(replay) if replay else [w for w, _ in witness_cases('C15')] + c15_cases(rng, tier, names, per)
+    stats = {'checked': 0, 'exempt': 0, 'bad': 0, 'not_ok': 0, 'cells': set(), 'known': collections.defaultdict(int)}
     lines, go, model = run_both(cases)
     mism = correspondence(res, cases, lines, go, model, 'C15')
-    checked = exempt = bad = 0
-    cells = set()
-    known_seen = collections.defaultdict(int)
-    for i, c in enumerate(cases):
-        cid = lines[i].split(' ')[0]
-        g = parse_ind(go.get(cid, 'missing'))
-        if g['status'] != 'ok':
-            continue
-        name = c[0]
-        scale = max([1.0] + [abs(v) for s in c[3] for v in s])
-        outs = [[h2f(v) for v in s] for s in g['outs']]
-        problem = None
-        for (k, lo, hi) in RANGE.get(name, []):
-            for j, v in enumerate(outs[k]):
-                r1 = leq(lo, v, 1.0) if lo is not None else True
-                r2 = leq(v, hi, 1.0) if hi is not None else True
-                if r1 is None or r2 is None:
-                    exempt += 1
-                    continue
-                checked += 1
-                if not (r1 and r2) and problem is None:
-                    problem = {'output': k, 'index': j, 'value': v, 'range': [lo, hi]}
-        if name in BANDS:
-            u, mdl, l = BANDS[name]
-            for j in range(min(len(outs[u]), len(outs[mdl]), len(outs[l]))):
-                r1, r2 = leq(outs[mdl][j], outs[u][j], scale), leq(outs[l][j], outs[mdl][j], scale)
-                if r1 is None or r2 is None:
-                    exempt += 1
-                    continue
-                checked += 1
-                if not (r1 and r2) and problem is None:
-                    problem = {'index': j, 'upper': outs[u][j], 'middle': outs[mdl][j], 'lower': outs[l][j]}
-        if name in ('MovingMax', 'MovingMin'):
-            p = c[1][0]
-            for j, v in enumerate(outs[0]):
-                x = c[3][0][j + p - 1] if j + p - 1 < len(c[3][0]) else None
-                if x is None:
-                    continue
-                ok = leq(x, v, scale) if name == 'MovingMax' else leq(v, x, scale)
-                win = c[3][0][j:j + p]
-                ok2 = (v in win)
-                checked += 1
-                if not (ok and ok2) and problem is None:
-                    problem = {'index': j, 'extreme': v, 'value': x, 'window': win}
-        n = len(c[3][0]) if c[3] else 0
-        cells.add((name, tuple(c[1]), c[4], min(n // 10, 10)))
-        if problem:
-            f = findings.get(name)
-            cond = (f or {}).get('condition', {})
-            if f and ('ns0' not in cond or (c[1] and c[1][0] == cond['ns0'])):
-                known_seen[name] += 1
-                continue
-            bad += 1
-            res.violation({'case': case_json(c), 'first_difference': problem,
-                           'oracle': 'documented range / band ordering evaluated directly on the Go output'})
+    c15_eval(res, cases, lines, go, findings, stats)
+    total = len(cases)
+    focused = []
+    if LAST_MISMATCH_COMPONENTS and not replay:
+        focused = sorted(n for n in LAST_MISMATCH_COMPONENTS if n in names)
+        if focused:
+            extra = c15_cases(rng, tier, focused, 120)
+            l2 = ['x%d %s' % (i, ind_line(*c[:4])) for i, c in enumerate(extra)]
+            c15_eval(res, extra, l2, vlib.run_go(l2), findings, stats)
+            total += len(extra)
     for comp, f in findings.items():
-        if known_seen.get(comp):
-            res.known_hit.append(known_line(f) + ' [%d cases]' % known_seen[comp])
+        if stats['known'].get(comp):
+            res.known_hit.append(known_line(f) + ' [%d cases]' % stats['known'][comp])
     res.samples = [{'case': lines[i][:200] + '…'} for i in (0, len(lines) // 2)] if lines else []
     res.coverage.update({
-        'evaluations': len(cases), 'distinct_nontrivial': len(cells),
+        'evaluations': total, 'distinct_nontrivial': len(stats['cells']),
         'rule': 'bounded/banded indicator x configuration x regime x length-decile on valid OHLCV (low<=open,close<=high, positive, '
-                'volume>=0); every emitted value is tested against its range / ordering, non-finite values exempt',
-        'values_checked': checked, 'exempt_values': exempt, 'violations_found': bad,
+                'volume>=0, moving min/max/std also on the volume column with non-traded bars); every emitted value is tested '
+                'against its range / ordering; a non-finite value is exempt only where the formula divides by data',
+        'values_checked': stats['checked'], 'exempt_values': stats['exempt'], 'violations_found': stats['bad'],
+        'go_runs_not_ok': stats['not_ok'], 'focused_search_components': focused,
         'traces_validated_against_impl': len(cases) - mism, 'go_vs_model_mismatches': mism,
-        'known_findings_seen': dict(known_seen), 'trusted_base': vlib.TRUSTED,
+        'known_findings_seen': dict(stats['known']), 'trusted_base': vlib.TRUSTED,
     })
     res.assumptions = ['ranges are checked up to 1e-9 relative rounding slack']
     return res.finish()
